@@ -21,6 +21,9 @@ COMPILERS = {"rel": "g++", "asan": "clang++", "tsan": "clang++"}
 # property table. engine "rc": a rapidcheck executable built in the `rel` flavour.
 # quick/thorough: (multiplier on each sub-check's base case count, number of parallel seeds)
 PROPS = {
+    "C04": dict(engine="rc", exe="c04", quick=(1, 6), thorough=(15, 16),
+                assumptions=["boundary points are asserted only where coordinates are exactly representable (cartesian lattice); elsewhere a 1e-9 relative band is skipped",
+                             "plumes are kept away from the +-180 meridian here (longitude aliases of plumes belong to C08)"]),
     "C02": dict(engine="rc", exe="c02", quick=(1, 6), thorough=(15, 16),
                 assumptions=["which features contain a point is decided by the code itself on single-feature worlds (independent of the stack)",
                              "fold oracle covers uniform temperature/composition models; other models are covered by the deletion/permutation relation",
@@ -131,6 +134,10 @@ def check_rc(pid, cfg, tier, seed):
     work = os.path.join(WORK, "%s-%s-%d" % (pid, tier, os.getpid()))
     shutil.rmtree(work, ignore_errors=True)
     os.makedirs(work)
+    # scratch files of the harness processes (world files) live on tmpfs and are removed with the run
+    tmpbase = "/dev/shm/wbv-%d" % os.getpid() if os.path.isdir("/dev/shm") else os.path.join(work, "tmp")
+    os.makedirs(tmpbase, exist_ok=True)
+    os.environ["VERIF_TMP"] = tmpbase
     known = [k for k in load_known() if k["property"] == pid]
     violations = []      # (replay path, message)
     known_lines = {}     # signature -> what
@@ -153,8 +160,7 @@ def check_rc(pid, cfg, tier, seed):
             notes.append("replay %s could not be run: %s" % (path, out[-300:]))
 
     # 2. generated search, `procs` seeds in parallel
-    env_base = dict(os.environ, VERIF_MULT=str(mult), VERIF_OUT=work, VERIF_TIER=tier, VERIF_KNOWN=KNOWN_FILE,
-                    VERIF_TMP=os.environ.get("VERIF_TMP", ""))
+    env_base = dict(os.environ, VERIF_MULT=str(mult), VERIF_OUT=work, VERIF_TIER=tier, VERIF_KNOWN=KNOWN_FILE, VERIF_TMP=tmpbase)
     running = []
     for i in range(procs):
         env = dict(env_base, VERIF_SEED=str(seed * 1000 + i), VERIF_TAG="p%d" % i)
@@ -273,6 +279,7 @@ def check_rc(pid, cfg, tier, seed):
     write_evidence(pid, tier, seed, coverage, cfg.get("assumptions", []), time.time() - t0, len(violations),
                    dict(inconclusive=inconclusive, known_findings_reported=sorted(known_lines)))
     shutil.rmtree(work, ignore_errors=True)
+    shutil.rmtree(tmpbase, ignore_errors=True)
     if unresolved_crash and not violations:
         # an in-process crash of the code under test with no saved case: infrastructure-level error, not a claim
         log("ERROR: harness process crashed; see notes in evidence")
